@@ -640,6 +640,28 @@ class SFP(Sym):
     def __rmul__(self, o): return self._arith(o, z3.fpMul, True)
     def __truediv__(self, o): return self._arith(o, z3.fpDiv)
     def __rtruediv__(self, o): return self._arith(o, z3.fpDiv, True)
+
+    @staticmethod
+    def _floordiv_terms(rm, a, b):
+        """Python / numpy float floor division (npy_divmod): the floor of the EXACT quotient. With d = RNE(a / b) and f = floor(d),
+        the exact floor is f, or f - 1 when rounding carried d up onto an integer; the sign of the fused a - f*b (one rounding,
+        sign exact) tells which. Special cases as numpy: b == 0 -> a / b; a infinite or any NaN -> NaN; b infinite -> -1 when the
+        signs differ and a != 0, else a signed zero."""
+        srt = a.sort()
+        d = z3.fpDiv(RNE, a, b)
+        f = z3.fpRoundToIntegral(RTN, d)
+        r = z3.fpFMA(RNE, z3.fpNeg(f), b, a)
+        zero = z3.fpPlusZero(srt)
+        adj = z3.Or(z3.And(z3.fpGT(b, zero), z3.fpLT(r, zero)), z3.And(z3.fpLT(b, zero), z3.fpGT(r, zero)))
+        corefd = z3.If(adj, z3.fpSub(RNE, f, z3.FPVal(1.0, srt)), f)
+        corefd = z3.If(z3.fpIsZero(corefd), z3.If(z3.fpIsNegative(d), z3.fpMinusZero(srt), zero), corefd)
+        signs_differ = z3.Xor(z3.fpIsNegative(a), z3.fpIsNegative(b))
+        binf = z3.If(z3.And(z3.Not(z3.fpIsZero(a)), signs_differ), z3.FPVal(-1.0, srt), z3.If(signs_differ, z3.fpMinusZero(srt), zero))
+        return z3.If(z3.Or(z3.fpIsNaN(a), z3.fpIsNaN(b), z3.fpIsInf(a)), z3.fpNaN(srt),
+                     z3.If(z3.fpIsZero(b), d, z3.If(z3.fpIsInf(b), binf, corefd)))
+
+    def __floordiv__(self, o): return self._arith(o, SFP._floordiv_terms)
+    def __rfloordiv__(self, o): return self._arith(o, SFP._floordiv_terms, True)
     def __neg__(self): return SFP(z3.fpNeg(self.t), self.dtype)
     def __pos__(self): return self
     def __abs__(self): return SFP(z3.fpAbs(self.t), self.dtype)
